@@ -265,6 +265,47 @@ pub fn run(ctx: &mut Ctx) {
         (matches!(parse_ct_signed_certificate_timestamp_list(&w.b), Ok((rem, l)) if rem.is_empty() && l == vec![s.expected()]), w.b)
     });
     sweep8!(ctx, "key_update.value", |v, _rng| { hs_ok(&AHs::KeyUpdate(v)) });
+    // the same code points inside the SMALLEST carrier that holds them (nothing but the code point where the
+    // format allows it: empty request, empty blob, empty name, single-entry lists), and inside a long one
+    sweep8!(ctx, "status_request.type.minimal-carrier", |v, rng| {
+        let n = [0usize, 0, 1, 2, 3, 300][(rng.below(6)) as usize];
+        let (g0, b0) = ext_ok(&AExt::StatusRequest(Some((v, vec![]))));
+        let (g1, b1) = ext_ok(&AExt::StatusRequest(Some((v, rng.bytes(n)))));
+        (g0 && g1, if g0 { b1 } else { b0 })
+    });
+    sweep8!(ctx, "certificate_status.type.minimal-carrier", |v, rng| {
+        let (g0, b0) = hs_ok(&AHs::CertificateStatus { ty: v, blob: vec![] });
+        let (g1, b1) = hs_ok(&AHs::CertificateStatus { ty: v, blob: rng.bytes(1) });
+        (g0 && g1, if g0 { b1 } else { b0 })
+    });
+    sweep8!(ctx, "sni.name_type.minimal-carrier", |v, rng| {
+        let (g0, b0) = ext_ok(&AExt::Sni(vec![(v, vec![])]));
+        let (g1, b1) = ext_ok(&AExt::Sni(vec![(v, rng.bytes(1))]));
+        (g0 && g1, if g0 { b1 } else { b0 })
+    });
+    sweep8!(ctx, "certificate_request.cert_type.minimal-carrier", |v, _rng| {
+        let (g0, b0) = hs_ok(&AHs::CertificateRequest { types: vec![v], sigalgs: None, cas: vec![] });
+        let (g1, b1) = hs_ok(&AHs::CertificateRequest { types: vec![v], sigalgs: Some(vec![]), cas: vec![] });
+        (g0 && g1, if g0 { b1 } else { b0 })
+    });
+    sweep8!(ctx, "psk_key_exchange_mode.minimal-carrier", |v, _rng| { ext_ok(&AExt::PskExchangeModes(vec![v])) });
+    sweep8!(ctx, "ec_point_format.minimal-carrier", |v, _rng| { ext_ok(&AExt::EcPointFormats(vec![v])) });
+    sweep8!(ctx, "heartbeat.message_type.minimal-carrier", |v, _rng| {
+        let m = AMsg::Heartbeat { ty: v, payload: vec![], padding: vec![] };
+        let b = record(0x18, 0x0303, &m.to_bytes());
+        (matches!(parse_tls_plaintext(&b), Ok((rem, r)) if rem.is_empty() && r.msg == vec![m.expected()]), b)
+    });
+    sweep8!(ctx, "compression.client_hello.minimal-carrier", |v, rng| {
+        let ch = crate::refenc::ACh { version: 0x0303, random: rng.bytes(32), sid: vec![], ciphers: vec![], comp: vec![v], ext: None };
+        hs_ok(&AHs::ClientHello(ch))
+    });
+    sweep8!(ctx, "ct.version.minimal-carrier", |v, rng| {
+        let mut s = gen::sct(&mut rng, gen::Sz { opaque: 0, list: 0 });
+        s.version = v;
+        let mut w = W::new();
+        sct_list(&mut w, &[s.clone()]);
+        (matches!(parse_ct_signed_certificate_timestamp_list(&w.b), Ok((rem, l)) if rem.is_empty() && l == vec![s.expected()]), w.b)
+    });
     sweep8!(ctx, "content_type.raw", |v, rng| {
         let p = rng.bytes(3);
         let b = record(v, 0x0303, &p);
